@@ -120,8 +120,11 @@ var envMu sync.Mutex // in-process Launch reads os.Environ(): one case at a time
 var selfExe, _ = os.Executable()
 
 func runCase(k kase) string {
-	envMu.Lock()
-	defer envMu.Unlock()
+	if !k.childCaller {
+		// only the in-process caller goes through this process' environment
+		envMu.Lock()
+		defer envMu.Unlock()
+	}
 	dir, err := os.MkdirTemp("", "c20-")
 	if err != nil {
 		return "harness: " + err.Error()
@@ -328,6 +331,41 @@ var grid = []int{0, 5, 40, 150}
 func TestGrid(t *testing.T) {
 	si, sn := rt.Shard()
 	idx, n := 0, 0
+	// "however slowly the daemon reaches Done()": a few really slow daemons (seconds to a minute) run in the
+	// background, through short-lived caller children, while the grid below is visited
+	slow := []int{12000}
+	if rt.Thorough() {
+		slow = []int{12000, 35000, 70000}
+	}
+	type slowRes struct {
+		k   kase
+		msg string
+	}
+	slowCh := make(chan slowRes, len(slow))
+	nslow := 0
+	for j, d := range slow {
+		if j%sn != si {
+			continue
+		}
+		nslow++
+		go func(d int) {
+			k := kase{delayMs: d, pauseMs: 0, concurrent: 1, childCaller: true}
+			slowCh <- slowRes{k, runCase(k)}
+		}(d)
+	}
+	defer func() {
+		for i := 0; i < nslow; i++ {
+			r := <-slowCh
+			if strings.HasPrefix(r.msg, "harness:") {
+				rt.Inconclusivef(t, "%s: %s", r.k, r.msg)
+			} else if r.msg != "" {
+				t.Errorf("%s: %s", r.k, r.msg)
+			} else {
+				ev.Label("slow_daemon_case")
+				ev.Case(true, ev.Hash(r.k.String()), r.k.String)
+			}
+		}
+	}()
 	for _, child := range []bool{false, true} {
 		for _, d := range grid {
 			for _, p := range grid {
